@@ -199,6 +199,13 @@ pub fn check(_ctx: &Ctx, input: &Input) -> CaseResult {
         out.nontrivial = bytes.len() > 8;
         return Ok(out);
     }
+    // mutated inputs (duplicated / damaged producers or name sections are not
+    // well-formed inputs of the switch relations) only serve the callback count
+    if origin.starts_with("mutant") {
+        out.label("mutant:callback-count-only");
+        out.nontrivial = true;
+        return Ok(out);
+    }
     // metamorphic relations between configs differing in one switch
     let get = |bits: u8| outputs[bits as usize].as_ref();
     for bits in 0u8..32 {
@@ -361,13 +368,13 @@ fn run(ctx: &Ctx) {
     let plans = [
         GenPlan {
             gen: "c14",
-            cases: ctx.tier.pick(600, 20_000),
+            cases: ctx.tier.pick(3000, 60_000),
             min_len: 1,
             max_len: ctx.tier.pick(1000, 2500),
         },
         GenPlan {
             gen: "c14-mutant",
-            cases: ctx.tier.pick(1500, 60_000),
+            cases: ctx.tier.pick(6000, 150_000),
             min_len: 25,
             max_len: ctx.tier.pick(800, 2500),
         },
